@@ -380,7 +380,7 @@ func (w *World) zeroOfSort(s string) Term {
 	if strings.HasPrefix(s, "(Array ") {
 		k, v := splitArraySort(s)
 		_ = k
-		return Term{fmt.Sprintf("((as const %s) %s)", s, w.zeroOfSort(v).S), s}
+		return Term{fmt.Sprintf("((as const %s) %s)", sortText(s), w.zeroOfSort(v).S), s}
 	}
 	panic("zeroOfSort: " + s)
 }
